@@ -192,7 +192,7 @@ func stEntries(art string, h byte, all bool) []string {
 func TestC01(t *testing.T) {
 	rep := NewReport("C01")
 	defer rep.Finish(t)
-	rep.Rule = "every document emitted by spec/SigTree.tla (final abstract tree of a base IdP message after <= K attacker productions) is built concretely from the tree (genuine nodes and signatures copied from a message the harness signed with goxmldsig, forged nodes with another identity, attacker signatures made with the attacker's / the encryption-only key bottom-up, KeyInfo written as the SEQUENCE the tree gives - X509Data elements with several certificates in order (the signer's, any other known one, an element that holds none, X509SubjectName), KeyValue elements, or no KeyInfo -, for artifact deliveries the SOAP envelope built from the tree too (soap:Header / second soap:Body / siblings holding forged, copied or moved ArtifactResponse / Response / Assertion elements before and after the signed one), optional encryption to the SP certificate, seed-chosen comment / white-space / prefix variants; assertions carry the ACCEPTABILITY the tree gives them: besides the message the attacker holds assertions the IdP genuinely signed that this SP refuses - B1 issued for another service provider (Recipient / audience, which of them chosen by the seed), B2 three days old - and places sequences of them and of forged assertions (acceptable apart from the missing signature, or not even that), plaintext or encrypted to the SP, before, after or instead of the message's assertion; a KeyInfo may hold the attacker's LOOK-ALIKE certificate, made at run time: his key, subject and SubjectKeyIdentifier copied from a trusted certificate that carries that extension (idp1k, a second certificate of the IdP key made at run time, which the SP holds in its metadata, pinned or by fingerprint and the IdP then sends)) and run through ParseXMLResponse, ParseResponse (POST), ParseXMLArtifactResponse or ParseResponse with SAMLart (the SP fetches the SOAP reply itself over sp.HTTPClient) on a ServiceProvider configured as the run's TRUST CONFIGURATION says (the table of configurations is emitted by the specification: key descriptors of the IdP metadata with use / EncryptionMethod / several certificates / several role descriptors / unparsable certificates, pinned IDPCertificate, IDPCertificateFingerprint + algorithm, each crossed with what the metadata lists at the same time; seed-chosen line-wrapped certificates and metadata passed through XML); the verdict is compared with the model's, and the returned assertion's identity-bearing content with the ledger of what the harness signed: it must have been signed with a key in TrustedKeys(configuration) as the statement defines it (pinned => only the pinned certificate, fingerprint => only a certificate with that fingerprint, else the signing-use certificates of the metadata; a signature verifies under a certificate when it was made with the key that certificate certifies; nothing a message carries or resembles adds to the set); non-trivial = MustAccept or MustReject by the statement"
+	rep.Rule = "every document emitted by spec/SigTree.tla (final abstract tree of a base IdP message after <= K attacker productions) is built concretely from the tree (genuine nodes and signatures copied from a message the harness signed with goxmldsig, forged nodes with another identity, attacker signatures made with the attacker's / the encryption-only key bottom-up, KeyInfo written as the SEQUENCE the tree gives - X509Data elements with several certificates in order (the signer's, any other known one, an element that holds none, X509SubjectName), KeyValue elements, or no KeyInfo -, for artifact deliveries the SOAP envelope built from the tree too (soap:Header / second soap:Body / siblings holding forged, copied or moved ArtifactResponse / Response / Assertion elements before and after the signed one), optional encryption to the SP certificate, seed-chosen comment / white-space / prefix variants; assertions carry the ACCEPTABILITY the tree gives them: besides the message the attacker holds assertions the IdP genuinely signed that this SP refuses - B1 issued for another service provider (Recipient / audience, which of them chosen by the seed), B2 three days old - and places sequences of them and of forged assertions (acceptable apart from the missing signature, or not even that), plaintext or encrypted to the SP, before, after or instead of the message's assertion; a KeyInfo may hold the attacker's LOOK-ALIKE certificate, made at run time: his key, subject and SubjectKeyIdentifier copied from a trusted certificate that carries that extension (idp1k, a second certificate of the IdP key made at run time, which the SP holds in its metadata, pinned or by fingerprint and the IdP then sends)) and run through ParseXMLResponse, ParseResponse (POST), ParseXMLArtifactResponse or ParseResponse with SAMLart (the SP fetches the SOAP reply itself over sp.HTTPClient) on a ServiceProvider configured as the run's TRUST CONFIGURATION says (the table of configurations is emitted by the specification: key descriptors of the IdP metadata with use / EncryptionMethod / several certificates / several role descriptors / unparsable certificates, pinned IDPCertificate, IDPCertificateFingerprint + algorithm - the configured string being the complete fingerprint, the empty string, or an abbreviation of the fingerprint of the trusted / of the attacker's own certificate -, each crossed with what the metadata lists at the same time; seed-chosen line-wrapped certificates and metadata passed through XML); the verdict is compared with the model's, and the returned assertion's identity-bearing content with the ledger of what the harness signed: it must have been signed with a key in TrustedKeys(configuration) as the statement defines it (pinned => only the pinned certificate, fingerprint => only a certificate with that fingerprint - an empty or abbreviated string is the fingerprint of no certificate -, else the signing-use certificates of the metadata; a signature verifies under a certificate when it was made with the key that certificate certifies; nothing a message carries or resembles adds to the set); non-trivial = MustAccept or MustReject by the statement"
 	oldNow := saml.TimeNow
 	defer func() { saml.TimeNow = oldNow }()
 	now := c02Now.Add(time.Duration(seedVal()%1000) * time.Hour)
@@ -284,6 +284,12 @@ func TestC01(t *testing.T) {
 		if c.Class == "MustReject" {
 			if kind == "fingerprint" && c.Cfg.Clean && stOutsiderListsTrusted(c.Tree, c.Cfg) {
 				stats["fingerprint_outsider_signature_whose_keyinfo_also_lists_the_trusted_certificate"]++
+			}
+			// counted by what the vector REQUIRES, never by what was observed
+			if kind == "fingerprint" && (c.Cfg.Fmt == "empty" || c.Cfg.Fmt == "prefix") && len(c.Cfg.Trusted) == 0 {
+				if stOutsiderSendsOwnCert(c.Tree) {
+					stats["fingerprint_string_"+c.Cfg.Fmt+"_names_no_idp_certificate_outsider_signs_and_sends_his_own_certificate"]++
+				}
 			}
 			if stUnverifiedResponseBeforeVerified(c.Tree) {
 				stats["envelope_other_response_before_the_signed_artifactresponse"]++
@@ -386,6 +392,11 @@ func TestC01(t *testing.T) {
 	if stats["fingerprint_outsider_signature_whose_keyinfo_also_lists_the_trusted_certificate"] == 0 {
 		rep.Break("vacuous: no outsider's signature whose KeyInfo lists several certificates, the trusted one among them, under a fingerprint configuration")
 	}
+	for _, f := range []string{"empty", "prefix"} {
+		if stats["fingerprint_string_"+f+"_names_no_idp_certificate_outsider_signs_and_sends_his_own_certificate"] == 0 {
+			rep.Break("vacuous: no MustReject document signed by the outsider with his own certificate in KeyInfo under a fingerprint configuration whose string (%s) is the complete fingerprint of no IdP certificate", f)
+		}
+	}
 	for _, kind := range []string{"metadata", "pinned"} {
 		if stats["lookalike_on_an_outsiders_signature_while_the_imitated_certificate_is_trusted_by_"+kind] == 0 {
 			rep.Break("vacuous: no MustReject document with an outsider's signature whose KeyInfo sends the look-alike certificate under a %s configuration that trusts the certificate it imitates", kind)
@@ -431,6 +442,35 @@ type stFamily struct {
 
 // stOutsiderListsTrusted: some signature in the tree was made by an outsider's key and its KeyInfo holds several
 // certificates, one of them trusted under the configuration
+// stOutsiderSendsOwnCert: a Signature made with the attacker's key whose KeyInfo begins with his own certificate
+func stOutsiderSendsOwnCert(n *stNode) bool {
+	if n == nil {
+		return false
+	}
+	if n.K == "Sig" && n.Key == "Katt" {
+		for _, g := range n.Ki {
+			for _, it := range g {
+				if it == "rsa" || it == "subj" {
+					continue
+				}
+				if it == "self" || it == "Katt" {
+					return true
+				}
+				break
+			}
+			if len(g) > 0 && g[0] != "rsa" && g[0] != "subj" {
+				break
+			}
+		}
+	}
+	for _, ch := range n.Ch {
+		if stOutsiderSendsOwnCert(ch) {
+			return true
+		}
+	}
+	return false
+}
+
 func stOutsiderListsTrusted(n *stNode, c *stTrustCfg) bool {
 	if n == nil {
 		return false
